@@ -1,6 +1,10 @@
 import BS.Properties.C07
+import BS.Properties.C07c
 #print axioms BS.Codec.drainDec_spec
 #print axioms BS.Codec.decode_encode
 #print axioms BS.Codec.damaged_batch_rejected
 #print axioms BS.Codec.dec_read_le
 #print axioms BS.Codec.dec_sticky
+#print axioms BS.Crc.checksum_detects_bit_burst
+#print axioms BS.Crc.checksum_detects_byte_burst
+#print axioms BS.Crc.checksum_detects_bit_flip
